@@ -1194,3 +1194,12 @@ package tsm1
 //@ func (*WAL).Close$1
 //@   holds l.mu
 //@ guarded FileStore.currentTempDirID by mu
+
+// Lock balance (C19): BatchDelete takes r.deleteMu and hands it to the batch; Commit / Rollback release it
+// ("Callers must either Commit or Rollback the operation").
+//@ func (*TSMReader).BatchDelete
+//@   lock_handoff returns with r.deleteMu held: the batch it returns releases it in Commit or Rollback
+//@ func (*batchDelete).Commit
+//@   lock_handoff releases the r.deleteMu that BatchDelete took
+//@ func (*batchDelete).Rollback
+//@   lock_handoff releases the r.deleteMu that BatchDelete took
